@@ -305,7 +305,8 @@ def tokenize_punctuation_command_name(text, prev=None):
 
     :param Buffer text: iterator over text, with current position
     """
-    if text.peek(-1) and text.peek(-1).category == CC.Escape:
+    if text.peek(-1) and text.peek(-1).category == CC.Escape \
+            and (prev is None or prev.category == TC.Escape):
         for point in PUNCTUATION_COMMANDS:
             if text.peek((0, len(point))) == point:
                 result = text.forward(len(point))
@@ -334,6 +335,7 @@ def tokenize_command_name(text, prev=None):
     'bf*'
     """
     if text.peek(-1) and text.peek(-1).category == CC.Escape \
+            and (prev is None or prev.category == TC.Escape) \
             and text.peek().category == CC.Letter:
         c = text.forward(1)
         while text.hasNext() and text.peek().category == CC.Letter \
